@@ -249,6 +249,14 @@ def evaluate_unc(case):
             _, u1 = conv(X, Y, x, y2, dy, kw)
             if not np.array_equal(np.asarray(u1), u0):
                 fails.append(f"{X}_to_{Y}: uncertainty depends on the function values")
+            # ... nor on the container: the docstrings allow "numpy.array or list" for every argument
+            try:
+                _, ul = conv(X, Y, x, y, [float(t) for t in dy], kw)
+                if np.asarray(ul).shape != u0.shape or not np.array_equal(np.asarray(ul, dtype=float), u0):
+                    fails.append(f"{X}_to_{Y}: an uncertainty given as a list gives {np.asarray(ul, dtype=float).tolist()[:3]}, the same numbers as an "
+                                 f"array {u0.tolist()[:3]}")
+            except Exception as ex:  # noqa: BLE001
+                fails.append(f"{X}_to_{Y}: an uncertainty given as a list raises {type(ex).__name__}")
             # the uncertainty must not depend on how equal numbers are stored: integer-typed counts vs the same values as floats
             di = np.rint(dy * 7).astype(np.int64)
             _, uf = conv(X, Y, x, y, di.astype(float), kw)
